@@ -569,7 +569,7 @@ SPEC = Spec(
     floors={"R03-EAGER": 70, "R03-AXIS": 15, "R03-SPLICE": 3, "R03-OPERATORS": 40,
             "R03-SLICE": 5, "R03-FOLD": 2},
     explanation=(
-        "Decides two clauses; the agreement of inferred shapes/dtypes with NumPy's "
+        "Decides structural clauses; the agreement of inferred shapes/dtypes with NumPy's "
         "value-level behaviour is NOT decided. R03-EAGER: for every concrete array "
         "kind shape, dtype, axes and tags resolve (through the MRO, TYPE_CHECKING "
         "stubs excluded) to a dataclass field or a run-time property, and the call "
@@ -581,7 +581,21 @@ SPEC = Spec(
         "compared with what the node's own shape property / lowering rule can "
         "index: a subscript by the axis field requires axis <= ndim-1, an insert "
         "position does not; the parameter-field link is read off the constructor "
-        "call; reductions, expand_dims and transpose validate their axes."),
+        "call; reductions, expand_dims and transpose validate their axes. "
+        "R03-SPLICE: every "
+        "sequence splice X[:i] ... X[i+1:] in the package has i proven non-negative "
+        "(result of .index(), index of range/enumerate, raising guard with lower "
+        "bound 0, or normalisation i = i % n). R03-OPERATORS (sibling agreement): "
+        "every forward/reflected operator pair of Array applies the same operator "
+        "function with the same options, only the reflected one reverses, argument "
+        "checks agree after exchanging the operands; _binary_op's two "
+        "broadcast_binary_op calls differ exactly in the operand order and hand on "
+        "every option. R03-SLICE (sibling agreement + slice.indices): start and "
+        "stop of a slice are clamped by identical code: -L <= v < L -> v % L, "
+        "v >= L -> L (L-1 for a negative step), below -> 0 (-1); defaults by sign "
+        "of the step; zero step rejected. R03-FOLD: an accumulating loop in shape "
+        "inference does not read the stale initial value of its accumulator; "
+        "repeated list.insert runs over ascending positions."),
     not_decided=(
         "dtype promotion, broadcast shapes, slice lengths and which exception type "
         "NumPy would raise: a differential statement against an external library's "
